@@ -648,7 +648,27 @@ def r19_16(ctx: Ctx) -> None:
               "makes `x` exit 0 and write the wrong bytes, while `t` exits 1", construct="x ignores packed-stream CRCs")
 
 
+def r19_17(ctx: Ctx) -> None:
+    """an archive without a streams section (directories and empty files only, as 7-Zip writes it) has `header.main_streams` None: wherever the
+    command line reads a field of it, a None test stands in front (`if ... main_streams is not None:` / a conditional expression) - otherwise
+    `t` dies with AttributeError and exits 1 on an intact archive that the library finds good."""
+    mod = ctx.prog.module("cli")
+    n = 0
+    for f in [g for g in ctx.prog.all_funcs if g.module == "cli"]:
+        for a in [x for x in walk(f.node) if isinstance(x, ast.Attribute) and isinstance(x.value, ast.Attribute) and x.value.attr == "main_streams"]:
+            n += 1
+            subj = norm(a.value)
+            ok = any((nt := q.is_none_test(cd)) is not None and norm(nt[0]) == subj and nt[1] != pol for cd, pol in q.facts_at(f, a))
+            ctx.check(ok, "R19.17", f, a, f"{f.name}: `{subj}` is read behind a None test",
+                      f"`{norm(a)}` in {f.qname} reads a field of `main_streams` without a None test: for a directories-only archive as 7-Zip writes it (no streams section) `t` raises "
+                      "AttributeError and exits 1 although test()/testzip() and `x` find the archive good", construct=f"{f.name} unguarded main_streams")
+    ctx.floor("R19.17", n, 1, "reads of main_streams fields in the command line")
+
+
 def run(ctx: Ctx) -> None:
+    r19_17(ctx)
+    from . import c08 as _c08a
+    _c08a.r08_3(ctx, rule="R19.18")  # `a` continues behind the packed data (packpos included): earlier members stay readable
     r19_16(ctx)
     r19_14(ctx)
     c04.r04_17(ctx, rule="R19.15")  # `x` does not exit 0 over a damaged member: the CRC comparison asks `is not None`, not truth (a stored CRC of 0 is a CRC)
